@@ -235,7 +235,7 @@ ADDENDA = {
     "C03": " Also: whole real parts written as bare digit strings (trim_floats below 10^break) fit the lexer's integer token width; the Prefix arm never prints its operand bare and the Infix arm prints both operands through the grouping printer; the identifier parser tries `name[index]` before the keyword table while MemoryReference always prints its brackets.",
     "C04": " Also: the literal rule shared with C02; positions printed with format_complex need a parser that accepts a sign and a sum (CALL immediates: sign repaired, two-part values a known finding); an expression printed directly after a qubit list is grouped by the writer for every expression kind whose text starts with a token the qubit parser accepts (DELAY, repaired twice); a to_quil()/to_quil_or_debug() call on a value of generic type inside a flag-taking helper counts as one on a placeholder-carrying value.",
     "C05": " Also: a literal is negated only under a test of the sign token being Operator::Minus; the float Eq/Hash helpers used for interning Expression numbers are exact (no ordering comparison, arithmetic or tolerance). Also: after the digits of an integer, '.', 'e' and 'E' all continue the literal as a real number. The radix prefixes map 0b -> 2, 0o -> 8, 0x -> 16 and no prefix -> 10.",
-    "C06": " Also: taking a name apart (split/strip/truncate family) before storing it counts as normalisation (one named exception: Pauli words decoded into PauliGate values). Also: nothing on the parse paths builds a char from a single byte or code unit.",
+    "C06": " Also: taking a name apart (split/strip/truncate family) before storing it counts as normalisation (one named exception: Pauli words decoded into PauliGate values). Also: nothing on the parse paths builds a char from a single byte or code unit. The identifier token is the concatenation, in order, of all parts the identifier grammar recognised.",
     "C07": " Also: no writer re-processes the serialized text of a nested value (split/lines/replace/trim): repaired for DEFCIRCUIT bodies. Also: no lexer or quoting function builds a char from a single byte. The text-reprocessing rule also covers the helpers shared by the writers (every function taking the fall_back_to_debug flag).",
     "C08": " Also: in every function that builds, merges, filters or rebuilds a Program store, no order-scrambling call (swap_remove, sort, reverse, ...) is applied to an insertion-ordered container and no insertion-ordered container is filled from an iteration over a hash-ordered one.",
     "C09": " Also: CalibrationSet's backing vector is added to only by `replace`; every section of both listings is appended unconditionally. Also: only add_instruction (and the whitelisted merge of two programs) appends to the body; a PRAGMA is moved to the extern store only under an exact `name == EXTERN`.",
